@@ -445,7 +445,15 @@ func c05Run(r *fw.R, d c05Desc) {
 					wp = def.Message(p, 1, wire.EndSync)
 				}
 				for _, f := range fragments(prng, wire.OpBinary, comp, wp, 1+prng.Intn(3)) {
-					if peer.Send(f) != nil {
+					if prng.Intn(3) == 0 && len(f.Payload) > 8 {
+						// deliver the frame in pieces with pauses, so that the library's reader is often in
+						// the middle of a frame when a closer fires
+						b := peer.Mask(f).Bytes()
+						k := f.HeaderLen() + 1 + prng.Intn(len(f.Payload)-1)
+						if peer.SendSplit(b, k, time.Duration(100+prng.Intn(1500))*time.Microsecond) != nil {
+							return
+						}
+					} else if peer.Send(f) != nil {
 						return
 					}
 					if prng.Intn(3) == 0 {
